@@ -14,13 +14,13 @@ RULE = ('Cases: arbitrary sample-by-k-mer tables (1..12 samples x 1..60 rows; ro
         'only-ambiguous, one-unambiguous-rest-ambiguous, every presence count 1..n) built through `ska build` and verified '
         'by read-out.  For each table the full grid 4 filters x filter-ambig-as-missing x ambig-mask x no-gap-only-sites is '
         'run at min-freq values j/n (j=0..n), four-digit decimals just below and above every j/n, and 0.9/0.5/0.7/0.3/0.6/0.35; the column multiset of `ska align` is compared with the '
-        'row predicate evaluated in exact rational arithmetic, and stricter settings must give sub-multisets of laxer ones.  A quarter of the files first pass through `ska weed --filter-ambig-as-missing` with a one-sample threshold (stored files with a history).  '
+        'row predicate evaluated in exact rational arithmetic, and stricter settings must give sub-multisets of laxer ones.  A third of the tables send every alignment to the same `-o` file (written over again and again); a quarter of the files first pass through `ska weed --filter-ambig-as-missing` with a one-sample threshold (stored files with a history).  '
         'Non-trivial: the table has rows that pass and rows that fail under the setting; distinct = distinct (table, setting).')
 ASSUMPTIONS = ['min-freq is passed as a short decimal string; the oracle uses the exact rational of that string',
                'tables are constructed through ska build (one record arm+base+arm+N per cell), verified before judging']
 FILTERS = ['no-filter', 'no-const', 'no-ambig', 'no-ambig-or-const']
 REQUIRED = {t: ['filter:' + f for f in FILTERS] + ['rows_kept', 'rows_dropped', 'threshold_boundary_rows',
-                                                   'submultiset_relations_checked', 'float_sensitive_thresholds', 'pretreated_files']
+                                                   'submultiset_relations_checked', 'float_sensitive_thresholds', 'pretreated_files', 'aligns_to_reused_output_file']
             for t in ('quick', 'thorough')}
 
 
@@ -172,7 +172,17 @@ def run_case(desc, ctx):
         for (filt, mf, fam, mask, nogap) in settings:
             args = [ctx.path('t.skf'), '--filter', filt, '--min-freq', mf] + (['--filter-ambig-as-missing'] if fam else []) \
                 + (['--ambig-mask'] if mask else []) + (['--no-gap-only-sites'] if nogap else [])
-            names, seqs, pa = G.align_output(ctx, args, binary=b)
+            if desc['seed'] % 3 == 0:
+                # output to a file that earlier runs of this table already wrote to (several of them longer)
+                pa = ctx.sh(b, 'align', *args, '-o', ctx.path('out.aln'))
+                if pa.returncode == 0:
+                    names, seqs = M.parse_fasta(open(ctx.path('out.aln')).read())
+                    if variant == 'rel':
+                        res.count('aligns_to_reused_output_file')
+                else:
+                    names, seqs = None, None
+            else:
+                names, seqs, pa = G.align_output(ctx, args, binary=b)
             if variant == 'chk':
                 res.count('chk_runs')
                 if names is None and 'overflow' in pa.stderr:
